@@ -41,7 +41,7 @@ def unary_forms(a):
     out += [
         (f"-({t})", "USub"), (f"+({t})", "UAdd"), (f"~({t})", "Invert"), (f"not ({t})", "Not"),
         (f"({t})()", "Call0"), (f"({t})(k=1)", "CallKw"), (f"({t})[0]", "SubIdx"), (f"({t})['k']", "SubKey"),
-        (f"({t})[1:2]", "SubSlice"), (f"lambda q: ({t})", "Lambda"), (f"lambda q, r=(1, 2), *s, k=3, **kw: ({t})", "LambdaManyParams"), (f"lambda: lambda q, r: ({t})", "LambdaInLambda"), (f"lambda e: ({t})", "LambdaShadow"), (f"[{t}]", "List1"), (f"({t},)", "Tuple1"),
+        (f"({t})[1:2]", "SubSlice"), (f"lambda q: ({t})", "Lambda"), (f"lambda q, r=(1, 2), *s, k=3, **kw: ({t})", "LambdaManyParams"), (f"lambda: lambda q, r: ({t})", "LambdaInLambda"), (f"lambda j, key=lambda q, w=1: q, scale=2, *, f=lambda: 0, g=3: ({t})", "LambdaDefaultsThatAreLambdas"), (f"lambda e: ({t})", "LambdaShadow"), (f"[{t}]", "List1"), (f"({t},)", "Tuple1"),
         (f"{{'k': ({t})}}", "Dict1"), (f"{{'jet-pt': ({t})}}", "DictHyphen"), (f"{{'class': ({t})}}", "DictKeyword"),
         (f"{{'': ({t})}}", "DictEmptyKey"), (f"{{'self': ({t}), 'cls': 1}}", "DictSelfKey"), (f"{{'__debug__': ({t})}}", "DictDebugKey"), (f"{{'self': ({t})}}.self", "DictSelfKeyAttr"), (f"{{'a b': ({t})}}", "DictSpace"), (f"({t}).m()", "Method0"),
         # keys that are no plain constants: a negative number (a UnaryOp), a tuple, a key only known when the query runs, a ** entry
